@@ -842,7 +842,7 @@ pub fn run(ctx: &mut Ctx) {
          status:oldkind>newkind with multiplicity capped at 2, max depth, directory-sibling ordering class)",
     );
     ctx.assume("git diff-tree -r -t: its non-tree records are what plain -r prints; tree-entry records are compared separately");
-    let n = ctx.n(8, 400);
+    let n = ctx.n(8, 300);
     let mut shared = Shared::default();
     ctx.cases("scenarios", n, |ctx, r| scenario(ctx, r, &mut shared));
 }
